@@ -31,9 +31,10 @@ type v08Gen struct {
 	sawAllowed         bool
 	batch              int
 	sessUsed           map[int]bool
+	mixedBlocks        int
 }
 
-func (g *v08Gen) datagram(s, dest int) {
+func (g *v08Gen) note(s, dest int) {
 	if !g.cfg.deny[dest] {
 		g.sawAllowed = true
 	} else if g.sawAllowed {
@@ -41,6 +42,69 @@ func (g *v08Gen) datagram(s, dest int) {
 	}
 	g.seen[dest] = true
 	g.sessUsed[s] = true
+}
+
+// plain: one unfragmented datagram.
+func (g *v08Gen) plain(s, dest int) {
+	g.note(s, dest)
+	size := rapid.IntRange(8, 40).Draw(g.rt, "dgSize")
+	g.ops = append(g.ops, v07Op{kind: v07OpData, s: s, dest: dest, msgSeq: g.msgSeq, total: size, lo: 0, hi: size, fragCount: 1, noWait: true})
+	g.msgSeq++
+	g.batch++
+}
+
+// mixedBlock: one fragmented datagram whose fragments carry DIFFERENT destination addresses (the client
+// controls every fragment's address field), with unfragmented datagrams of the same session in between.
+func (g *v08Gen) mixedBlock(s int) {
+	nf := rapid.IntRange(2, 3).Draw(g.rt, "mixedFragments")
+	bounds := []int{0}
+	for i := 0; i < nf; i++ {
+		sz := rapid.IntRange(1, 20).Draw(g.rt, "fragSize")
+		if i == 0 && sz < 8 {
+			sz = 8
+		}
+		bounds = append(bounds, bounds[i]+sz)
+	}
+	order := rapid.Permutation(v07Iota(nf)).Draw(g.rt, "arrivalOrder")
+	// which arrival position carries a denied address: first, last, middle, or a random mix
+	pat := rapid.IntRange(0, 3).Draw(g.rt, "deniedPosition")
+	seq := g.msgSeq
+	g.msgSeq++
+	for pos, fid := range order {
+		denied := false
+		switch pat {
+		case 0:
+			denied = pos == 0
+		case 1:
+			denied = pos == nf-1
+		case 2:
+			denied = pos == nf/2
+		default:
+			denied = rapid.Bool().Draw(g.rt, "deniedHere")
+		}
+		dest := g.pick(denied)
+		g.note(s, dest)
+		g.ops = append(g.ops, v07Op{kind: v07OpData, s: s, dest: dest, msgSeq: seq, total: bounds[nf], lo: bounds[fid], hi: bounds[fid+1],
+			pid: uint16(seq%65000) + 1, fragID: uint8(fid), fragCount: uint8(nf), noWait: true})
+		g.batch++
+		if pos < nf-1 {
+			for k := rapid.IntRange(0, 2).Draw(g.rt, "between"); k > 0; k-- {
+				if rapid.IntRange(0, 3).Draw(g.rt, "betweenDenied") == 0 {
+					g.plain(s, g.pick(true))
+				} else {
+					g.plain(s, g.pick(false))
+				}
+			}
+		}
+	}
+	g.mixedBlocks++
+	if g.batch >= 48 {
+		g.sync()
+	}
+}
+
+func (g *v08Gen) datagram(s, dest int) {
+	g.note(s, dest)
 	size := rapid.IntRange(8, 40).Draw(g.rt, "dgSize")
 	if rapid.IntRange(0, 19).Draw(g.rt, "fragmented") == 0 {
 		// two fragments, the policy applies to the reassembled datagram
@@ -136,6 +200,9 @@ func v08GenCase(rt *rapid.T) (v07Cfg, []v07Op, *v08Gen) {
 	// first destination of the first session: allowed or denied
 	firstDenied := rapid.Bool().Draw(rt, "firstDenied")
 	s0 := g.sess()
+	if rapid.IntRange(0, 2).Draw(rt, "startWithMixedFragments") == 0 {
+		g.mixedBlock(s0) // across session establishment: fragments arrive before/around the dial
+	}
 	g.datagram(s0, g.pick(firstDenied))
 	if firstDenied && rapid.Bool().Draw(rt, "firstDeniedTwice") {
 		g.datagram(s0, g.pick(true))
@@ -144,12 +211,20 @@ func v08GenCase(rt *rapid.T) (v07Cfg, []v07Op, *v08Gen) {
 	case 0:
 		n := rapid.IntRange(3, 60).Draw(rt, "n")
 		for i := 0; i < n; i++ {
+			if rapid.IntRange(0, 9).Draw(rt, "mixed") == 0 {
+				g.mixedBlock(g.sess())
+				continue
+			}
 			g.datagram(g.sess(), rapid.IntRange(0, g.pool-1).Draw(rt, "dest"))
 		}
 	case 1:
 		n := rapid.IntRange(3, 30).Draw(rt, "n")
 		d, a := g.pick(true), g.pick(false)
 		for i := 0; i < n; i++ {
+			if rapid.IntRange(0, 9).Draw(rt, "mixed") == 0 {
+				g.mixedBlock(g.sess())
+				continue
+			}
 			switch rapid.IntRange(0, 3).Draw(rt, "alt") {
 			case 0:
 				g.datagram(g.sess(), a)
@@ -197,6 +272,9 @@ func v08GenCase(rt *rapid.T) (v07Cfg, []v07Op, *v08Gen) {
 	// sometimes let the sessions expire and start again with other first destinations
 	if rapid.IntRange(0, 3).Draw(rt, "restart") == 0 {
 		g.ops = append(g.ops, v07Op{kind: v07OpAdvance, dur: g.cfg.idle + time.Second + time.Millisecond})
+		if rapid.Bool().Draw(rt, "restartWithMixedFragments") {
+			g.mixedBlock(g.sess())
+		}
 		n := rapid.IntRange(1, 20).Draw(rt, "n2")
 		for i := 0; i < n; i++ {
 			g.datagram(g.sess(), rapid.IntRange(0, g.pool-1).Draw(rt, "dest"))
@@ -238,6 +316,12 @@ func TestVerifC08_Policy(t *testing.T) {
 		}
 		if len(g.sessUsed) >= 2 {
 			cls = append(cls, "sessions>=2")
+		}
+		if g.mixedBlocks > 0 {
+			cls = append(cls, "fragments-with-different-addresses")
+		}
+		if res.m != nil && res.m.nMixedForwarded > 0 {
+			cls = append(cls, "mixed-address-message-forwarded")
 		}
 		if len(g.seen) > 256 {
 			cls = append(cls, "distinct>256")
@@ -349,6 +433,12 @@ func TestVerifC08_Scripted(t *testing.T) {
 		// session index 1 is rewritten: its denied original address d1 must not become "allowed" for session index 0
 		"hooked-session-then-unhooked-to-its-original": {v07Cfg{idle: 10 * time.Second, limit: 1200, hookMode: 2, deny: deny, sids: []uint32{77, 78}, shared: true, denyRewrite: []bool{false, false}, randSeed: 1},
 			[]v07Op{dgs(1, 0, 1), dgs(1, 1, 1), dgs(0, 2, 0), dgs(0, 3, 1), dgs(0, 4, 0), dgs(1, 5, 2), {kind: v07OpSync}}, 5, 1},
+		// fragments of one datagram carrying different addresses: denied one first (before the dial), the allowed one last
+		"mixed-address-fragments-across-dial": {v07Cfg{idle: 10 * time.Second, limit: 1200, deny: deny, sids: []uint32{9}, shared: true, denyRewrite: []bool{false}, randSeed: 1},
+			[]v07Op{{kind: v07OpData, s: 0, dest: 1, msgSeq: 0, total: 20, lo: 0, hi: 10, pid: 1, fragID: 0, fragCount: 2, noWait: true}, dgs(0, 1, 0),
+				{kind: v07OpData, s: 0, dest: 0, msgSeq: 0, total: 20, lo: 10, hi: 20, pid: 1, fragID: 1, fragCount: 2, noWait: true}, dgs(0, 2, 2),
+				{kind: v07OpData, s: 0, dest: 0, msgSeq: 3, total: 20, lo: 10, hi: 20, pid: 4, fragID: 1, fragCount: 2, noWait: true},
+				{kind: v07OpData, s: 0, dest: 1, msgSeq: 3, total: 20, lo: 0, hi: 10, pid: 4, fragID: 0, fragCount: 2, noWait: true}, {kind: v07OpSync}}, 3, 0},
 		// the hook rewrites to an address the policy rejects: nothing may be forwarded, the original is not a fallback
 		"rewrite-target-denied": {v07Cfg{idle: 10 * time.Second, limit: 1200, hookMode: 1, deny: deny, sids: []uint32{5}, shared: true, denyRewrite: []bool{true}, randSeed: 1},
 			[]v07Op{dgs(0, 0, 0), dgs(0, 1, 0), dgs(0, 2, 2), dgs(0, 3, 1), {kind: v07OpSync}}, 0, 0},
